@@ -186,6 +186,27 @@ def qmeta_interp(repo, res):
             break
         except Raised:
             pass
+    # quadrature elements of one integral must agree on points *and* weights
+    QA = _el("Quadrature-A", custom=([[0.25, 0.25], [0.5, 0.125]], [0.3, 0.2]))
+    QA2 = _el("Quadrature-A-again", custom=([[0.25, 0.25], [0.5, 0.125]], [0.3, 0.2]))
+    QP = _el("Quadrature-other-points", custom=([[0.5, 0.0], [0.0, 0.5]], [0.3, 0.2]))
+    QW = _el("Quadrature-other-weights", custom=([[0.25, 0.25], [0.5, 0.125]], [0.1, 0.4]))
+    QN = _el("Quadrature-more-points", custom=([[0.25, 0.25], [0.5, 0.125], [0.1, 0.1]], [0.3, 0.1, 0.1]))
+    for label, els, reject in (("two quadrature elements on the same rule", [QA, P, QA2], False), ("same weights, other points", [QA, QP], True),
+                               ("same points, other weights", [QA, QW], True), ("another number of points", [QA, QN], True)):
+        key = f"{f.key}:quadrature-elements:{label}"
+        res.ob(key)
+        it, form, fd, _ = world([[("integral with " + label, "cell", {}, els, (2,))]])
+        it.overrides["np.shape"] = _PyCall(lambda a: tuple(a.shape) if isinstance(a, NDArr) else (len(a),))
+        try:
+            out = it.call_f(f, [form, "float64"])
+            if reject:
+                md = out.f["integral_data"][0].f["integrals"][0]._md if isinstance(out, Node) else {}
+                res.fail(key, f"an integral whose quadrature elements live on different rules ({label}) is accepted and integrated with {str(md.get('quadrature_points'))[:60]}: "
+                         "the other element's values are paired with the wrong points (silently wrong result); it must be rejected", loc)
+        except Raised as e:
+            if not reject:
+                res.fail(key, f"an integral with {label} is rejected ({e.what})", loc)
     key = f"{f.key}:empty-form-rejected"
     res.ob(key)
     it, form, fd, _ = world(groups()[:1], empty=True)
@@ -225,3 +246,115 @@ def qmeta_interp(repo, res):
         pg = kw.get("preserve_geometry_types")
         if not isinstance(pg, (tuple, list)) or "ufl.classes.Jacobian" not in list(pg):
             res.fail(key, f"compute_form_data(preserve_geometry_types={pg!r}): the Jacobian must be preserved (it is computed from coordinate_dofs tables)", loc)
+
+
+@rule(
+    "ANALYZE-OBJECTS",
+    ["C20", "C13", "C06", "C04"],
+    "analyze_ufl_objects interpreted on a sample object list (forms - two of them distinct objects with the same UFL signature -, "
+    "expressions with points, a mesh, an element): form_data has one entry per form, in order, each computed from that very form "
+    "object (names and coefficient names are looked up by the identity of the original form); expressions keep their order as "
+    "(processed, points, original); elements and coordinate elements of every object are collected",
+    min_instances=4,
+)
+def analyze_objects(repo, res):
+    m = repo.mod(AN)
+    f = m.func("analyze_ufl_objects")
+    res.functions.add(f.key)
+    loc = m.line(f.node)
+
+    class Form(PyNative):
+        def __init__(self, name, sig, els, cels):
+            self.name, self.sig, self.els, self.cels = name, sig, els, cels
+
+        def signature(self):
+            return self.sig
+
+        def __repr__(self):
+            return f"<form {self.name}>"
+
+        def __hash__(self):
+            return hash(self.sig)  # UFL forms with equal signature compare and hash equal
+
+        def __eq__(self, o):
+            return isinstance(o, Form) and o.sig == self.sig
+
+    class Expr(PyNative):
+        def __init__(self, name):
+            self.name = name
+
+        def __repr__(self):
+            return f"<expr {self.name}>"
+
+    class AbstractFiniteElement(PyNative):
+        def __init__(self, name):
+            self.name = name
+
+        def __repr__(self):
+            return f"el({self.name})"
+
+        def __lt__(self, o):
+            return self.name < o.name
+
+    class _ElementBase(AbstractFiniteElement):
+        pass
+
+    class Mesh(PyNative):
+        def __init__(self, ce):
+            self.ce = ce
+
+        def ufl_coordinate_element(self):
+            return self.ce
+
+    e1, e2, e3, ce1, ce2 = (_ElementBase(n) for n in ("P1", "P2", "DG0", "coordP1", "coordP2"))
+    a = Form("a", "SIG-1", [e1], [ce1])
+    L1 = Form("L_body", "SIG-2", [e2], [ce1])
+    L2 = Form("L_traction", "SIG-2", [e2], [ce1])  # a different object (other coefficient, other name) with the same signature
+    x1, x2 = Expr("flux"), Expr("stress")
+    objs = [a, (x1, [[0.25, 0.25]]), L1, e3, L2, Mesh(ce2), (x2, [[0.5, 0.5]])]
+    it = install_arrays(install(Interp(repo, load_classes(repo), primary=AN)))
+    calls = []
+
+    def analyze_form(form, st):
+        calls.append(form)
+        return Node("FormData", original_form=form, unique_sub_elements=list(form.els), coordinate_elements=list(form.cels), marker=len(calls))
+    it.overrides["_analyze_form"] = _PyCall(analyze_form)
+    it.overrides["_analyze_expression"] = _PyCall(lambda e, st: Expr("processed " + e.name))
+    it.overrides["ufl.algorithms.extract_elements"] = _PyCall(lambda e: [e1] if e.name == "flux" else [e2])
+    it.overrides["ufl.algorithms.analysis.extract_sub_elements"] = _PyCall(lambda els: [])
+    it.overrides["ufl.algorithms.sort_elements"] = _PyCall(lambda els: sorted(els, key=lambda e: e.name))
+    it.overrides["logger"] = Node("Logger", info=_PyCall(lambda *a: None), debug=_PyCall(lambda *a: None))
+    it.overrides["UFLData"] = _PyCall(lambda **k: Node("UFLData", **k))
+    it.overrides["np.asarray"] = _PyCall(lambda x, **k: x)
+    it.overrides["repr"] = _PyCall(lambda x: repr(x))
+    try:
+        out = it.call_f(f, [objs, "float64"])
+    except Raised as e:
+        res.ob(f"{f.key}:runs")
+        res.fail(f"{f.key}:runs", f"analyze_ufl_objects raises ({e.what}) on a list of forms, expressions, a mesh and an element", loc)
+        return
+    fd = out.f.get("form_data")
+    key = f"{f.key}:one-form-data-per-form"
+    res.ob(key)
+    got = [d.f.get("original_form") for d in (fd or [])]
+    if len(got) != 3 or any(g is not w for g, w in zip(got, [a, L1, L2])):
+        res.fail(key, f"form_data belongs to the forms {got}, expected one entry per form in order [a, L_body, L_traction], each computed from that very object: two forms "
+                 "with the same signature (f*v*dx and g*v*dx) are different objects with different names - their alias, coefficient names and element list are "
+                 "looked up by object identity, so sharing one FormData declares the first alias twice and never the second", loc)
+    elif len({id(d) for d in fd}) != 3:
+        res.fail(key, "two forms share one FormData object", loc)
+    key = f"{f.key}:expressions"
+    res.ob(key)
+    ex = out.f.get("expressions") or []
+    if [(repr(p), pts, o) for p, pts, o in ex] != [("<expr processed flux>", [[0.25, 0.25]], x1), ("<expr processed stress>", [[0.5, 0.5]], x2)]:
+        res.fail(key, f"expressions are {ex}, expected (processed, points, original) per expression in order", loc)
+    key = f"{f.key}:elements-collected"
+    res.ob(key)
+    ue = out.f.get("unique_elements") or []
+    if [e.name for e in ue] != ["DG0", "P1", "P2"] or out.f.get("element_numbers") != {e: i for i, e in enumerate(ue)}:
+        res.fail(key, f"unique elements are {ue} with numbers {out.f.get('element_numbers')}: every element of every form, expression and stand-alone element must be numbered once", loc)
+    key = f"{f.key}:coordinate-elements-collected"
+    res.ob(key)
+    uc = out.f.get("unique_coordinate_elements") or []
+    if [e.name for e in uc] != ["coordP1", "coordP2"]:
+        res.fail(key, f"unique coordinate elements are {uc}, expected those of the forms and of the stand-alone mesh, once each, in a canonical order", loc)
